@@ -55,7 +55,8 @@ def generate(rng, tier):
         ("follow", 800 * k, bc.gen_followup),
         ("life", 1000 * k, bc.gen_lifecycle),
         ("dotted", 20 * k, lambda r, i: bc.gen_special(r, i, "dotted")),
-        ("case", 40 * k, lambda r, i: bc.gen_special(r, i, "case")),
+        ("case", 120 * k, lambda r, i: bc.gen_special(r, i, "case")),
+        ("twotypes", 30 * k, lambda r, i: bc.gen_special(r, i, "two-types")),
         ("long", 3 * k, bc.gen_long),
     ])
 
